@@ -6,7 +6,8 @@ EXPLANATION = ("Decides on the MIR of the current tree the direction of C02 that
                "ordering as a stronger one: exactness of the ordering tables of Synchronize and fence (Y3, Y4), no stray joins into a thread's "
                "causality (Y2), the acquire-fence predicate is thread-local (O4), the user's Ordering reaches the runtime unmodified for every "
                "atomic front-end method (O1), compare_and_swap's failure-ordering table (O2) and that loads/RMWs seed the read-from branch with "
-               "all candidate stores and use the branch's choice (O3). Which candidate stores are offered depends on clock values and is not decided.")
+               "all candidate stores and use the branch's choice (O3). Which candidate stores are offered depends on clock values and is not decided."
+               " G0/G1 cross-check the acquire/release/join steps against the reference tree.")
 RULE_TEXT = "rule instances = ordering-table cells, causality writers, front-end methods x atomic types; non-trivial when matched to concrete MIR"
 LEVEL_NOTE = "necessary conditions only"
 
